@@ -126,6 +126,8 @@ structure St where
   lflen : Nat := 0
   fsize : Nat := 0       -- bytes
   stats : Stats := {}
+  /-- the statistics as last written to the file header (`_fsm_write_meta_lw`) -/
+  saved : Stats := {}
   strict : Bool := false
 deriving Inhabited
 
@@ -276,6 +278,7 @@ def initLw (s : St) (bmoffB bmlenB : Nat) : St × Rc :=
       let s := { s with bits := setRange s.bits (bmoffB / bsz s) (bmlenB / bsz s) true }
       let s := if oldLen = 0 then { s with bits := setRange s.bits 0 (hdrBlk s) true } else s
       let s := loadTree s
+      let s := { s with saved := s.stats }    -- `_fsm_write_meta_lw`
       if oldLen ≠ 0 then deallocLw s (oldOff / bsz s) (oldLen / bsz s) else (s, .ok)
 
 /-- `_fsm_resize_fsm_bitmap_lw` -/
@@ -430,10 +433,16 @@ def openNew (bpow aunit hdrlenOpt bmlenOpt : Nat) (strict : Bool) : St × Rc :=
   let bmlen := if bmlenOpt > 0 then roundup bmlenOpt aunit else aunit
   initLw s (roundup hdrlen aunit) bmlen
 
-/-- `_fsm_close` (trim unless IWFSM_NO_TRIM_ON_CLOSE) followed by `_fsm_init_existing_lw` -/
+/-- `_fsm_sync` -/
+def sync (s : St) : St := { s with saved := s.stats }
+
+/-- `_fsm_close` (trim unless IWFSM_NO_TRIM_ON_CLOSE; nothing at all is written when the index is empty)
+    followed by `_fsm_init_existing_lw` -/
 def reopen (s : St) (noTrim : Bool) : St × Rc :=
-  let (s, rc) := if s.tree.isEmpty ∨ noTrim then (s, Rc.ok) else trimTail s
-  (loadTree s, rc)
+  if s.tree.isEmpty then (loadTree { s with stats := s.saved }, .ok)
+  else
+    let (s, rc) := if noTrim then (s, Rc.ok) else trimTail s
+    (loadTree { s with saved := s.stats }, rc)
 
 /-- `_fsm_clear` -/
 def clear (s : St) (trim : Bool) : St × Rc :=
